@@ -13,7 +13,7 @@ def strip_generics(s):
     i = 0
     n = len(s)
     while i < n:
-        if s.startswith("::<", i):
+        if s.startswith("::<", i) and not s.startswith("::<impl ", i):
             # skip balanced <...>
             j = i + 3
             d = 1
